@@ -190,6 +190,16 @@ def c20_program(ks, repeat_lens):
         main.append("    { let a = gen_rep::<%d>(); let ev = take(); rec(\"repeat_constgeneric\", %d, &ev, a.as_slice(), a.len(), &ev, a.as_slice(), a.len()); }" % (n, n))
         consts.append("const CG_%d: GenericArray<i64, generic_array::ConstArrayLength<%d>> = cgen_rep::<%d>();" % (n, n, n))
         main.append("    rec(\"const_repeat\", %d, &[], CG_%d.as_slice(), CG_%d.len(), &[], CG_%d.as_slice(), CG_%d.len());" % (n, n, n, n, n))
+    # token shapes of the length and of the elements: parenthesised / braced / arithmetic / named constant lengths, type
+    # expressions and paths as type-level lengths, nested macro calls and method calls as elements
+    w("const FOUR: usize = 4;")
+    for shape in ("{ 3 }", "1 + 2", "{ FOUR - 1 }"):   # ("(3)" and "FOUR - 1" start like a type and are not accepted by the pinned macros)
+        main.append("    { let a = arr![e(7); %s]; let ev = take(); let b = box_arr![e(7); %s]; let bev = take(); rec(\"repeat_const\", 3, &ev, a.as_slice(), a.len(), &bev, b.as_slice(), b.len()); }" % (shape, shape))
+    for shape in ("generic_array::typenum::U3", "Sum<U1, U2>", "<U1 as core::ops::Add<U2>>::Output", "Diff<U7, U4>"):
+        main.append("    { let a = arr![e(7); %s]; let ev = take(); let b = box_arr![e(7); %s]; let bev = take(); rec(\"repeat_ty\", 3, &ev, a.as_slice(), a.len(), &bev, b.as_slice(), b.len()); }" % (shape, shape))
+    main.append("    { let a = arr![arr![e(0), e(1)], arr![e(2), e(3)]]; let ev = take(); let b = box_arr![arr![e(0), e(1)], arr![e(2), e(3)]]; let bev = take(); "
+                "let fa: Vec<i64> = a.iter().flat_map(|r| r.iter().copied()).collect(); let fb: Vec<i64> = b.iter().flat_map(|r| r.iter().copied()).collect(); rec(\"list\", 4, &ev, &fa, fa.len(), &bev, &fb, fb.len()); }")
+    main.append("    { let a = arr![e(0).wrapping_add(0), { e(1) }, (e(2)), if true { e(3) } else { 0 }]; let ev = take(); let b = box_arr![e(0).wrapping_add(0), { e(1) }, (e(2)), if true { e(3) } else { 0 }]; let bev = take(); rec(\"list\", 4, &ev, a.as_slice(), a.len(), &bev, b.as_slice(), b.len()); }")
     # a length given by a generic TYPE parameter of the enclosing fn: box_arr!'s type-level repeat form accepts it
     # (arr!'s names the length in an inner const item and cannot see outer generics - not demanded)
     w("fn tgen_rep<N: generic_array::ArrayLength>() -> (Box<GenericArray<i64, N>>, Vec<i64>) { let b = box_arr![e(7); N]; let bev = take(); (b, bev) }")
